@@ -4,6 +4,7 @@
 import Driver.C02
 import RelicVerif.Model.NtGcd
 import RelicVerif.Model.NtLehmer
+import RelicVerif.Model.NtGcdMid
 
 namespace Driver.C09Gcd
 open Driver Relic.Model
@@ -84,6 +85,18 @@ def handle (w _cap digs : Nat) (op : String) (args : List String) (got : String)
     | "lehme" => mk (match NtLehmer.gcdExtLehme w a b with
         | some r => fmt3 w r
         | none => "model-overflow-or-fuel") sp (tg "lehme" ++ lehmeTags w a b)
+    | "mid" =>
+      -- specification (lattice membership): with (u0, v0) = (larger, smaller magnitude), c + d·v0 ≡ 0 and e + f·v0 ≡ 0 (mod u0); for a = 0 / b = 0 the coded constants
+      let u0 : Int := if a.natAbs > b.natAbs then a.natAbs else b.natAbs
+      let v0 : Int := if a.natAbs > b.natAbs then b.natAbs else a.natAbs
+      let okm : Bool := match (got.splitOn " ").map outInt with
+        | [some c, some d, some e, some f] =>
+          if a = 0 ∨ b = 0 then true else (c + d * v0) % u0 == 0 && (e + f * v0) % u0 == 0
+        | _ => false
+      let m := match NtGcdMid.gcdExtMid 0 0 0 0 a b with
+        | some (c, d, e, f) => fmt c ++ " " ++ fmt d ++ " " ++ fmt e ++ " " ++ fmt f
+        | none => "err"
+      mk m (if okm then [got] else ["two vectors (c, d), (e, f) of the lattice {(x, y) : x + y·v0 ≡ 0 mod u0}"]) (tg "mid")
     | "binar" =>
       let fixed : Bool := match NtGcd.gcdExtBinarImp a b with
         | some _ => false
